@@ -1283,6 +1283,10 @@ func main() {
 		os.Exit(3)
 	}
 	cmd := os.Args[1]
+	if cmd == "syncprobe" && len(os.Args) >= 3 {
+		syncProbe(os.Args[2])
+		return
+	}
 	fs := flag.NewFlagSet(cmd, flag.ExitOnError)
 	in := fs.String("in", "", "scenario file (ndjson)")
 	out := fs.String("out", "", "result file (ndjson)")
